@@ -347,6 +347,43 @@ pub fn run_task(
     )
 }
 
+fn os_errno(e: &anyhow::Error) -> i32 {
+    e.downcast_ref::<std::io::Error>()
+        .and_then(|e| e.raw_os_error())
+        .unwrap_or(-1)
+}
+
+/// `Work::create_parent_dirs` for the outputs of step `index` of the manifest `build_filename`
+/// (loaded like `run::build` does, in the current directory); the error is the errno.
+pub fn create_parent_dirs(build_filename: &str, index: usize) -> Result<(), i32> {
+    let state = crate::load::read(build_filename).map_err(|_| -2)?;
+    let progress = crate::progress_dumb::DumbConsoleProgress::new(false);
+    let options = crate::work::Options {
+        failures_left: None,
+        parallelism: 1,
+        explain: false,
+        adopt: false,
+    };
+    let work = crate::work::Work::new(
+        state.graph,
+        state.hashes,
+        state.db,
+        &options,
+        &progress,
+        state.pools,
+    );
+    work.verif_create_parent_dirs(index).map_err(|e| os_errno(&e))
+}
+
+/// `task::write_rspfile`; the error is the errno.
+pub fn write_rspfile(path: PathBuf, content: Vec<u8>) -> Result<(), i32> {
+    let rsp = crate::graph::RspFile {
+        path,
+        content: unsafe { String::from_utf8_unchecked(content) },
+    };
+    crate::task::verif_hooks::write_rspfile(&rsp).map_err(|e| os_errno(&e))
+}
+
 fn state_counts(counts: [usize; 6]) -> StateCounts {
     use crate::work::BuildState::*;
     let mut c = StateCounts::default();
